@@ -4,8 +4,13 @@ Decides (from the syntax tree of hailtop/batch_client/aioclient.py; nothing is r
 are inlined first, static methods included):
   R1  source and order: the bunching loop iterates [*<JOB_GROUP-tagged specs of parameter 1>, *<JOB-tagged specs of parameter 2>] built by
       unfiltered comprehensions whose element is SpecBytes(dumps(x), tag) directly or through a helper every return of which is that
-      constructor; `_submit` passes (self._job_group_specs, self._job_specs, max_bunch_bytesize, max_bunch_size) in that order and
-      `submit` forwards ITS OWN limit arguments to `_submit`
+      constructor; every name on the way (source list, comprehension iterable, type tag) is followed through the definitions that REACH it on
+      the CFG, so the comprehension must range over the parameter itself - a parameter or source list that was rebound to sorted(..) /
+      reversed(..) / a slice / a filtered copy, or sorted / reversed / shuffled in place, is an order (or completeness) violation, list(..) /
+      [:] / .copy() are not; a source that on some path is an ATTRIBUTE of the object (bytes serialised by another method at another time)
+      is a provenance violation when that method stores a caller-owned object in the spec by reference (snapshot != specification passed in);
+      `_submit` passes (self._job_group_specs, self._job_specs, max_bunch_bytesize, max_bunch_size) in that order,
+      `submit` forwards ITS OWN limit arguments to `_submit`, and no statement of the file re-orders the two spec lists between creation and bunching
   R2  linear use, on every path through the loop body (all paths are enumerated on the CFG): the spec is consumed exactly once, by
       `bunch.append(spec)` or by the fresh `[spec]`; `bunch` is rebound only right after it was appended to the result and a flushed bunch
       is never touched again; after the loop the residual non-empty bunch is appended (several `return <result>` are accepted)
@@ -42,7 +47,7 @@ META = dict(
          'compared in linear normal form; def-use of the iterable; dominance of job-group submission over job submission. Every path of the loop body is an '
          'obligation and all are discharged, but list semantics are taken from the recognised idioms (append / [spec] / rebinding), so the level is "other".',
     note='Trusted: CPython ast; engines/pyfacts CFG; engines/linform; list.append appends at the end; assert statements are enabled. Spec sizes are non-negative.',
-    technique='static analysis: path enumeration on the CFG (linear use), linear normal forms, def-use, dominance, helper inlining, who-may-mutate rule with aliases',
+    technique='static analysis: path enumeration on the CFG (linear use), linear normal forms, reaching definitions with an order relation over sequence wrappers, dominance, helper inlining, who-may-mutate / who-may-reorder rules with aliases',
     design_ref='DESIGN.md §3 C19',
 )
 
@@ -180,7 +185,12 @@ def _elem_ctor(ctx: Ctx, m: pf.Module, elt: ast.AST, where: str) -> Tuple[ast.AS
     hw = f'{F}::{h.name}'
     a = h.args
     ctx.need(not (a.vararg or a.kwarg or a.posonlyargs), f'{hw}: star parameters')
-    ctx.need(not any(isinstance(x, (ast.For, ast.While, ast.AsyncFor, ast.Try, ast.With, ast.Await, ast.Yield, ast.YieldFrom, ast.Lambda)) for x in pf.walk_shallow(h)),
+    def _reraising(t: ast.Try) -> bool:
+        # `try: <body> except X: ...; raise ...`: every handler ends by raising, nothing is swallowed, so a normal completion went through the body only
+        return not t.finalbody and not t.orelse and all(hd.body and isinstance(hd.body[-1], ast.Raise) and not any(isinstance(y, ast.Return) for z in hd.body for y in ast.walk(z))
+                                                         for hd in t.handlers)
+    ctx.need(not any(isinstance(x, (ast.For, ast.While, ast.AsyncFor, ast.With, ast.Await, ast.Yield, ast.YieldFrom, ast.Lambda)) or (isinstance(x, ast.Try) and not _reraising(x))
+                     for x in pf.walk_shallow(h)),
              f'{hw}: loops / try / with in the serialisation helper (not analysed)')
     params = [x.arg for x in a.args][drop:] + [x.arg for x in a.kwonlyargs]
     bound: Dict[str, ast.AST] = {}
@@ -445,6 +455,92 @@ def _reorders(v: ast.AST, result: str) -> bool:
     return False
 
 
+def _resolve_names(g: pf.CFG, e: ast.AST, at: pf.Node, keep: Set[str]) -> ast.AST:
+    """Copy of e in which every local name (not in keep) whose only definition reaching CFG node `at` is `name = <expression>` is replaced by that
+    expression (one level; e.g. the `typ = SpecType.JOB` an inlined helper call leaves in front of its body)."""
+    class _S(ast.NodeTransformer):
+        def visit_Name(self, n: ast.Name):
+            if isinstance(n.ctx, ast.Load) and n.id not in keep:
+                ds, entry = facts.reaching_defs(g, n.id, at)
+                if not entry and len(ds) == 1 and isinstance(ds[0].ast, ast.Assign) and len(ds[0].ast.targets) == 1 and isinstance(ds[0].ast.targets[0], ast.Name) \
+                        and isinstance(ds[0].ast.value, (ast.Attribute, ast.Constant, ast.Name)):
+                    return copy.deepcopy(ds[0].ast.value)
+            return n
+
+        def visit_Lambda(self, n):
+            return n
+    return _S().visit(copy.deepcopy(e))
+
+
+def _enum_members(m: pf.Module) -> Set[str]:
+    """`Cls.MEMBER` for every member of an Enum class of the module whose members are bound to pairwise different constants."""
+    out: Set[str] = set()
+    for c in m.classes():
+        if not any((pf.dotted(b) or '').split('.')[-1] in ('Enum', 'IntEnum', 'StrEnum') for b in c.bases):
+            continue
+        mem = [(st.targets[0].id, st.value.value) for st in c.body if isinstance(st, ast.Assign) and len(st.targets) == 1 and isinstance(st.targets[0], ast.Name)
+               and isinstance(st.value, ast.Constant)]
+        if len({v for _, v in mem}) == len(mem):
+            out |= {f'{c.name}.{n}' for n, _ in mem}
+    return out
+
+
+_IMMUTABLE_ANN = {'bool', 'int', 'str', 'float', 'bytes', 'Optional[bool]', 'Optional[int]', 'Optional[str]', 'Optional[float]', 'Optional[bytes]'}
+
+
+def _provenance(ctx: Ctx, m: pf.Module, fn: pf.FuncDef, where: str, prov_bad: List[Tuple[str, ast.AST, str]], recv: str, loop: ast.For) -> None:
+    """R1: what the bunches carry must be serialised, inside this call, from the specs passed to this call.  A source list that is (on some path) an
+    attribute of the object - filled by another method at another time - is a snapshot: it is compared here with how the live spec dicts are built."""
+    cons = f'{where}::bunch contents are serialised from the arguments of this call'
+    if not prov_bad:
+        ctx.ok('R1', cons, 'every source list is a comprehension over a parameter evaluated in this call')
+        return
+    src, leaf, role = prov_bad[0]
+    attr = leaf.attr  # type: ignore[attr-defined]
+    cls = m.cls(CLS)
+
+    def is_attr(e: ast.AST, r: str) -> bool:
+        return isinstance(e, ast.Attribute) and e.attr == attr and isinstance(e.value, ast.Name) and e.value.id == r
+
+    growers: List[Tuple[pf.FuncDef, ast.AST, ast.AST]] = []
+    for f in cls.body:
+        if not isinstance(f, (ast.FunctionDef, ast.AsyncFunctionDef)) or not f.args.args:
+            continue
+        r = f.args.args[0].arg
+        for x in pf.walk_shallow(f):
+            v = None
+            if isinstance(x, ast.Call) and isinstance(x.func, ast.Attribute) and x.func.attr in ('append', 'extend', 'insert') and is_attr(x.func.value, r) and x.args:
+                v = x.args[-1]
+            elif isinstance(x, ast.AugAssign) and is_attr(x.target, r):
+                v = x.value
+            elif isinstance(x, ast.Assign) and any(isinstance(t, ast.Subscript) and is_attr(t.value, r) for t in x.targets):
+                v = x.value
+            elif isinstance(x, ast.Assign) and any(is_attr(t, r) for t in x.targets) and not (isinstance(x.value, ast.List) and not x.value.elts):
+                v = x.value
+            if v is not None:
+                ctx.need(f is not fn, f'{where}: `{recv}.{attr}` is also written inside this call (`{pf.nsrc(x)[:80]}`): a cache maintained during bunching is not analysed')
+                growers.append((f, x, v))
+    ctx.need(bool(growers), f'{where}: `{pf.nsrc(leaf)}` feeds the bunches but no method of {CLS} fills it (not analysed)')
+    alias: Optional[Tuple[pf.FuncDef, ast.AST, str, str]] = None
+    for f, x, v in growers:
+        mparams = {a.arg: (pf.nsrc(a.annotation) if a.annotation is not None else '') for a in list(f.args.args)[1:] + list(f.args.kwonlyargs)}
+        vx = pf.resolve_expr(f, v)
+        dicts = [n.id for n in ast.walk(vx) if isinstance(n, ast.Name) and n.id not in mparams]
+        for d in dicts:
+            for st in pf.walk_shallow(f):
+                if isinstance(st, ast.Assign) and len(st.targets) == 1 and isinstance(st.targets[0], ast.Subscript) and isinstance(st.targets[0].value, ast.Name) \
+                        and st.targets[0].value.id == d and isinstance(st.value, ast.Name) and st.value.id in mparams and mparams[st.value.id] not in _IMMUTABLE_ANN:
+                    alias = alias or (f, st, st.value.id, d)
+    ctx.need(alias is not None, f'{where}: `{pf.nsrc(leaf)}` (filled by {sorted({f.name for f, _, _ in growers})}) feeds the bunches instead of a serialisation of `{src}` made in this call, '
+             f'but it could not be established that a specification can change between the two moments (no caller-owned object stored by reference was found)')
+    f, st, prm, d = alias  # type: ignore[misc]
+    ctx.bad('R1', cons, f'on some path the {role} source `{src}` is `{pf.nsrc(leaf)}` - bytes serialised earlier by {CLS}.{growers[0][0].name} (`{pf.nsrc(growers[0][1])[:90]}`), not a '
+            f'serialisation of the specs passed to this call. The spec dicts keep caller-owned objects by reference ({CLS}.{f.name}: `{pf.nsrc(st)}`), so the history '
+            f'{f.name.lstrip("_")}(..., {prm}=x); x[<new key>] = <value>; submit() hands _create_bunches a list whose spec contains the new entry while the bunch carries the bytes '
+            f'taken before the edit: the concatenated bunches are not the original specifications (and n_bytes, hence the split points and the byte limit, are computed from the stale bytes)',
+            m.path, loop.lineno)
+
+
 def _bunching(ctx: Ctx, m0: pf.Module) -> None:
     m, inlined = _prepared(m0)
     if inlined:
@@ -480,6 +576,15 @@ def _bunching(ctx: Ctx, m0: pf.Module) -> None:
 
     # ---- R1 source and order
     it = pf.resolve_expr(fn, loop.iter)
+    iter_rel, iter_via = 'same', ''
+    for _ in range(4):
+        pe = facts.peel_order(it)
+        if pe is None or isinstance(it, (ast.List, ast.Tuple)):
+            break
+        if pe[0] != 'same' and not iter_via:
+            iter_via = pf.nsrc(it)[:120]
+        iter_rel = facts.worse(iter_rel, pe[0])
+        it = pf.resolve_expr(fn, pe[1])
     srcs: Optional[List[ast.AST]] = None
     if isinstance(it, ast.List) and all(isinstance(e, ast.Starred) for e in it.elts):
         srcs = [e.value for e in it.elts]  # type: ignore[attr-defined]
@@ -491,16 +596,94 @@ def _bunching(ctx: Ctx, m0: pf.Module) -> None:
     tagged = []
     src_facts: List[Tuple[str, List[Lin]]] = []   # per source list: facts L <= 0 over ELEM that hold for each of its elements
     src_stmts: List[ast.stmt] = []
-    for s in srcs:  # type: ignore[union-attr]
-        e = pf.resolve_expr(fn, s)
-        ctx.need(isinstance(e, ast.ListComp) and len(e.generators) == 1 and isinstance(e.generators[0].target, ast.Name), f'{where}: `{pf.nsrc(s)}` is not a simple list comprehension')
-        gen = e.generators[0]  # type: ignore[union-attr]
-        elt = e.elt  # type: ignore[union-attr]
-        payload, tag, efacts, how = _elem_ctor(ctx, m, elt, where)
+    H_ = [n for n in g.nodes if n.ast is loop and n.kind == 'loop']
+    ctx.need(len(H_) == 1, f'{where}: loop head')
+    pset = set(params)
+    order_bad: List[str] = []
+    if iter_rel != 'same':
+        order_bad.append(f'the loop iterates `{iter_via}`, a {iter_rel} view of the serialised specs: the bunches are filled in another order than the specs were given (a stable sort on '
+                         f'anything but a constant also moves job specs in front of job-group specs or the other way round); e.g. j1, j2, j3 are packed as j3, j1, j2')
+    prov_bad: List[Tuple[str, ast.AST, str]] = []
+    seq_names: Set[str] = {p_groups, p_jobs} | {x.id for x in ast.walk(loop.iter) if isinstance(x, ast.Name)}
+    roles = ['job-group', 'job']
+
+    def order_story(role: str) -> str:
+        return ('three job groups created as g1 = b.create_job_group(); g2 = g1.create_job_group(); g3 = b.create_job_group() have in_update_parent_id 0, 1, 0 and must be '
+                'submitted as 1, 2, 3; re-ordered (e.g. parents first: 1, 3, 2) they reach the server out of sequence - the front end derives the next id from the first spec of each request and answers '
+                '400 "job group specs were not submitted in order" as soon as the sequence straddles a bunch boundary') if role == 'job-group' else \
+               ('jobs j1, j2, j3 come out in another order; the server reads a job spec at offset job_id - start_job_id of its bunch, and a child can precede its parent')
+
+    enum_members = _enum_members(m)
+
+    def decide(test: ast.AST, at_: pf.Node) -> Optional[bool]:
+        # `<name> == <Enum>.<MEMBER>` where the only definition of <name> reaching this point is another / the same member of that enum
+        if not (isinstance(test, ast.Compare) and len(test.ops) == 1 and isinstance(test.ops[0], (ast.Eq, ast.Is, ast.NotEq, ast.IsNot))):
+            return None
+        a_, b_ = _resolve_names(g, test.left, at_, pset), _resolve_names(g, test.comparators[0], at_, pset)
+        da, db = pf.dotted(a_), pf.dotted(b_)
+        if da is None or db is None or da not in enum_members or db not in enum_members or da.split('.')[0] != db.split('.')[0]:
+            return None
+        eq = da == db
+        return eq if isinstance(test.ops[0], (ast.Eq, ast.Is)) else not eq
+
+    for k_, s in enumerate(srcs):  # type: ignore[union-attr]
+        role = roles[k_] if k_ < 2 and len(srcs) == 2 else 'spec'  # type: ignore[arg-type]
+        alts = facts.origins(g, s, H_[0], pset, decide=decide)
+        seq_names |= {x.id for x in ast.walk(s) if isinstance(x, ast.Name)}
+        fresh = [o for o in alts if isinstance(o.leaf, ast.ListComp) and o.rel != 'unknown']
+        other = [o for o in alts if not any(o is f_ for f_ in fresh)]
+        for o in other:
+            # a source that is NOT computed from the parameter inside this call: stored state of the object
+            attrs = [x for x in ast.walk(o.leaf) if isinstance(x, ast.Attribute) and isinstance(x.value, ast.Name) and x.value.id == params[0]]
+            if o.rel != 'unknown' and isinstance(o.leaf, ast.Attribute) and attrs and not (pf.names_in(o.leaf) & (pset - {params[0]})):
+                prov_bad.append((pf.nsrc(s), o.leaf, role))
+            else:
+                raise AnalysisError(f'{where}: `{pf.nsrc(s)}` is not a simple list comprehension (one of its possible values is `{pf.nsrc(o.leaf)[:100]}`'
+                                    + (f' via {o.via[-1]}' if o.via else '') + ')')
+        ctx.need(len(fresh) == 1, f'{where}: `{pf.nsrc(s)}` is not a simple list comprehension ({len(fresh)} comprehensions can reach the loop)')
+        o = fresh[0]
+        e = o.leaf
+        ctx.need(len(e.generators) == 1 and isinstance(e.generators[0].target, ast.Name), f'{where}: `{pf.nsrc(s)}` is not a simple list comprehension')  # type: ignore[attr-defined]
+        if o.rel != 'same':
+            order_bad.append(f'the serialised {role} specs pass through {o.via[-1] if o.via else "a re-ordering / filtering expression"} before they are packed ({o.rel}): '
+                             + (order_story(role) if o.rel == 'reordered' else 'specs are dropped'))
+        gen = e.generators[0]  # type: ignore[attr-defined]
+        elt = e.elt  # type: ignore[attr-defined]
+        at = o.node if o.node is not None else H_[0]
+        # the element's type tag and other names in the comprehension are read where the comprehension is evaluated
+        elt_r = _resolve_names(g, elt, at, pset | {gen.target.id})
+        payload, tag, efacts, how = _elem_ctor(ctx, m, elt_r, where)
         pay_ok = isinstance(payload, ast.Call) and len(payload.args) == 1 and isinstance(payload.args[0], ast.Name) and payload.args[0].id == gen.target.id
-        tagged.append((pf.nsrc(gen.iter), pf.nsrc(tag), bool(gen.ifs), pay_ok, e))  # type: ignore[union-attr]
+        ios = facts.origins(g, gen.iter, at, pset)
+        seq_names |= {x.id for x in ast.walk(gen.iter) if isinstance(x, ast.Name)}
+        ctx.need(len(ios) == 1 and ios[0].rel != 'unknown', f'{where}: the iterable `{pf.nsrc(gen.iter)}` of the {role} comprehension has {len(ios)} possible origins (not analysed)')
+        io = ios[0]
+        ctx.need(io.at_entry or isinstance(io.leaf, ast.Attribute), f'{where}: the iterable `{pf.nsrc(gen.iter)}` of the {role} comprehension resolves to `{pf.nsrc(io.leaf)[:80]}`, '
+                 f'which is neither a parameter nor an attribute (not analysed)')
+        base = pf.nsrc(io.leaf)
+        if io.rel != 'same':
+            order_bad.append(f'the {role} specs are taken from {io.via[-1] if io.via else pf.nsrc(gen.iter)} ({io.rel} with respect to parameter `{base}`) before they are serialised and packed: '
+                             + (f'the concatenated bunches are no longer the original specifications in order; {order_story(role)}' if io.rel == 'reordered' else 'specs are dropped'))
+        tagged.append((base, pf.nsrc(tag), bool(gen.ifs), pay_ok, e))  # type: ignore[union-attr]
         src_facts.append((pf.nsrc(s), list(efacts)))
         src_stmts += [st for st in fn.body if isinstance(st, (ast.Assign, ast.AnnAssign)) and st.value is e]
+        src_stmts += [st for st in fn.body if isinstance(st, ast.Assign) and len(st.targets) == 1 and isinstance(st.targets[0], ast.Name) and st.targets[0].id in pf.names_in(gen.iter) | pf.names_in(s)
+                      and facts.peel_order(st.value) is not None]
+    # in-place re-ordering of a parameter / source list before the loop
+    for st in _stmts(fn):
+        for c in pf.calls_in(st) if isinstance(st, (ast.Expr, ast.Assign, ast.AugAssign, ast.AnnAssign)) else []:
+            tgt = None
+            if isinstance(c.func, ast.Attribute) and isinstance(c.func.value, ast.Name) and c.func.value.id in seq_names and c.func.attr in ('sort', 'reverse'):
+                tgt = c.func.value.id
+            elif (pf.dotted(c.func) or '').split('.')[-1] == 'shuffle' and c.args and isinstance(c.args[0], ast.Name) and c.args[0].id in seq_names:
+                tgt = c.args[0].id
+            before_loop = not _inside(loop, st) and any(H_[0].id in g.reachable_from(n_) for n_ in g.node_of(c))
+            if tgt is not None and tgt != result and before_loop:
+                role = 'job-group' if 'group' in tgt else 'job'
+                order_bad.append(f'`{pf.nsrc(c)[:100]}` re-orders `{tgt}` in place before the specs are packed: {order_story(role)}')
+            elif isinstance(c.func, ast.Attribute) and isinstance(c.func.value, ast.Name) and c.func.value.id in seq_names - {result} \
+                    and c.func.attr in ('pop', 'remove', 'clear', 'insert', 'append', 'extend') and not _inside(loop, st):
+                raise AnalysisError(f'{where}: `{pf.nsrc(c)[:100]}` changes a source list in place (not analysed)')
     want = [(p_groups, 'SpecType.JOB_GROUP'), (p_jobs, 'SpecType.JOB')]
     got = [(a, b) for a, b, _, _, _ in tagged]
     ctx.check(got == want, 'R1', f'{where}::iterable = job groups then jobs',
@@ -509,6 +692,9 @@ def _bunching(ctx: Ctx, m0: pf.Module) -> None:
               m.path, loop.lineno)
     ctx.check(not any(f for _, _, f, _, _ in tagged) and all(ok for _, _, _, ok, _ in tagged), 'R1', f'{where}::every spec is serialised',
               'a source comprehension filters its input or does not serialise its own loop variable: specs are dropped or duplicated', m.path, loop.lineno)
+    ctx.check(not order_bad, 'R1', f'{where}::sources keep the order of the parameters',
+              (order_bad[0] if order_bad else '') + (f' (+{len(order_bad) - 1} more)' if len(order_bad) > 1 else ''), m.path, loop.lineno, extra=order_bad[:6])
+    _provenance(ctx, m, fn, where, prov_bad, params[0], loop)
 
     # ---- events
     H = [n for n in g.nodes if n.ast is loop and n.kind == 'loop']
@@ -889,6 +1075,97 @@ def _submit_call(ctx: Ctx, m: pf.Module) -> None:
         ctx.check(pf.nsrc(cs[0][1].args[0]) == f'{bunches}[0]', 'R4', f'{where}::{name} receives the only bunch', f'`{pf.nsrc(cs[0][1])}` does not pass `{bunches}[0]`', m.path, cs[0][1].lineno)
 
 
+def _spec_lists_keep_order(ctx: Ctx, m: pf.Module) -> None:
+    """R1 (who may re-order): "the original specifications in order" is the order of creation, i.e. the order of `self._job_group_specs` / `self._job_specs`, which
+    `_submit` hands to `_create_bunches`.  Every syntactic use of the two attributes in the file is classified: appending and reading keep the order; sort / reverse /
+    shuffle / insert at the front / re-binding to a re-ordered or filtered copy break it; removals and escapes are declined."""
+    par = m.parents()
+    for attr in ('_job_group_specs', '_job_specs'):
+        cons = f'{F}::{CLS}::self.{attr} keeps creation order until it is bunched'
+        role = 'job-group' if 'group' in attr else 'job'
+        bad: List[Tuple[ast.AST, str]] = []
+        n_uses = 0
+        for node in ast.walk(m.tree):
+            if not (isinstance(node, ast.Attribute) and node.attr == attr):
+                continue
+            n_uses += 1
+            p = par.get(node)
+            st: Optional[ast.AST] = node
+            while st is not None and not isinstance(st, ast.stmt):
+                st = par.get(st)
+            txt = pf.nsrc(st)[:110] if st is not None else pf.nsrc(node)
+
+            def same_attr(x: ast.AST) -> bool:
+                return isinstance(x, ast.Attribute) and x.attr == attr and pf.nsrc(x.value) == pf.nsrc(node.value)
+            if isinstance(node.ctx, ast.Store):
+                if isinstance(p, (ast.Assign, ast.AnnAssign)) and p.value is not None:
+                    v = p.value
+                    if isinstance(v, ast.List) and not v.elts:
+                        continue
+                    rel = 'same'
+                    cur: ast.AST = v
+                    for _ in range(6):
+                        pe = facts.peel_order(cur)
+                        if pe is None:
+                            break
+                        rel = facts.worse(rel, pe[0])
+                        cur = pe[1]
+                    if same_attr(cur) and rel == 'same':
+                        continue
+                    if same_attr(cur):
+                        bad.append((p, f'`{txt}` re-binds the list to a {rel} copy of itself'))
+                        continue
+                elif isinstance(p, (ast.AnnAssign,)):
+                    continue
+                raise AnalysisError(f'{F}: `{txt}` writes `{attr}` in a way that is not analysed')
+            if isinstance(node.ctx, ast.Del):
+                raise AnalysisError(f'{F}: `{txt}` deletes `{attr}` (not analysed)')
+            if isinstance(p, ast.Attribute) and p.value is node and isinstance(par.get(p), ast.Call) and par[p].func is p:
+                c = par[p]
+                if p.attr == 'append':
+                    continue
+                if p.attr in ('sort', 'reverse'):
+                    bad.append((c, f'`{txt}` re-orders the list in place'))
+                    continue
+                if p.attr == 'insert':
+                    if len(c.args) == 2 and pf.nsrc(c.args[0]) == f'len({pf.nsrc(node)})':
+                        continue
+                    bad.append((c, f'`{txt}` inserts a specification in front of specifications created earlier'))
+                    continue
+                if p.attr in ('copy', 'index', 'count', '__len__'):
+                    continue
+                raise AnalysisError(f'{F}: `{txt}` calls .{p.attr}() on `{attr}` (not analysed)')
+            if isinstance(p, ast.Subscript) and p.value is node:
+                if isinstance(p.ctx, ast.Load):
+                    continue
+                raise AnalysisError(f'{F}: `{txt}` assigns into `{attr}` (not analysed)')
+            if isinstance(p, ast.Call) and any(a is node for a in p.args):
+                fname = pf.dotted(p.func) or ''
+                if fname.split('.')[-1] == 'shuffle':
+                    bad.append((p, f'`{txt}` shuffles the list'))
+                    continue
+                if (isinstance(p.func, ast.Name) and p.func.id in facts.PURE_FUNCS) or fname.endswith('._create_bunches'):
+                    continue
+                raise AnalysisError(f'{F}: `{txt}` hands `{attr}` to `{fname or pf.nsrc(p.func)}` (not analysed)')
+            if isinstance(p, (ast.For, ast.AsyncFor, ast.comprehension)) and p.iter is node:
+                continue
+            if isinstance(p, (ast.Compare, ast.BoolOp, ast.UnaryOp, ast.FormattedValue, ast.Starred)) or (isinstance(p, (ast.If, ast.While, ast.IfExp, ast.Assert)) and getattr(p, 'test', None) is node):
+                continue
+            if isinstance(p, ast.AugAssign) and p.target is node:
+                if isinstance(p.op, ast.Add):
+                    continue
+                raise AnalysisError(f'{F}: `{txt}` (not analysed)')
+            raise AnalysisError(f'{F}: `{txt}`: use of `{attr}` not analysed')
+        ctx.need(n_uses >= 3, f'{F}: `{attr}` is hardly used any more ({n_uses} uses): the spec lists were renamed / restructured')
+        if bad:
+            node0, why = bad[0]
+            ctx.bad('R1', cons, f'{why}: the list `_submit` hands to `_create_bunches` is no longer in creation order, so the concatenated bunches are not the original {role} specifications '
+                    f'in order (ids are assigned at creation, the server reads a job spec at offset job_id - start_job_id of its bunch and requires job-group ids to arrive consecutively)'
+                    + (f' (+{len(bad) - 1} more)' if len(bad) > 1 else ''), m.path, getattr(node0, 'lineno', 0))
+        else:
+            ctx.ok('R1', cons, {'uses': n_uses})
+
+
 def _filter(ctx: Ctx, fn: pf.FuncDef, where: str, src_param: str) -> Dict[str, str]:
     """name -> SpecType member for `name = [s.spec_bytes for s in <src_param> if s.typ == SpecType.X]`."""
     out: Dict[str, str] = {}
@@ -978,8 +1255,10 @@ def run(ctx: Ctx) -> None:
     ctx.exhaustive = True
     ctx.explanation = ('All paths through the body of the bunching loop are enumerated on the CFG and checked for linear use of the spec and of the current bunch; guards and '
                        'byte accounting are compared in linear normal form; submitter filters are matched with their endpoints / JSON keys; nothing is run.')
-    ctx.rule('R1', 'iterable = [*JOB_GROUP-tagged(param 1), *JOB-tagged(param 2)] from unfiltered comprehensions (element constructor seen through helpers); _submit passes (job group specs, '
-                   'job specs, byte limit, count limit); submit() forwards its own limit arguments', 5)
+    ctx.rule('R1', 'iterable = [*JOB_GROUP-tagged(param 1), *JOB-tagged(param 2)] from unfiltered comprehensions (element constructor seen through helpers) over the PARAMETERS themselves '
+                   '(followed through reaching definitions: no sorted / reversed / filtered / in-place re-ordered derivative) and serialised inside this call (not a snapshot kept on the '
+                   'object); _submit passes (job group specs, job specs, byte limit, count limit); submit() forwards its own limit arguments; nothing in the file re-orders '
+                   'self._job_group_specs / self._job_specs between creation and bunching', 9)
     ctx.rule('R2', 'on every path through the loop body the spec is consumed exactly once, bunch is rebound only right after being flushed, lists start empty, residual bunch appended', 3)
     ctx.rule('R3', 'append guarded by bytes + n <= max_bytes and len + 1 <= max_size against the limit PARAMETERS of this call (or values provably <= them); tracked bytes >= actual bytes on '
                    'every path; fresh [spec] preceded by n <= max_bytes (facts from the loop, from serialisation helpers and from all()-asserts); n_bytes = len(spec_bytes)', 4)
@@ -991,4 +1270,5 @@ def run(ctx: Ctx) -> None:
     ctx.unit('files')
     _bunching(ctx, m)
     _submit_call(ctx, m)
+    _spec_lists_keep_order(ctx, m)
     _submitters(ctx, m)
